@@ -57,7 +57,6 @@ if ok and "--no-check" not in sys.argv:
     try:
         t0 = time.time()
         evp = "/verif/evidence/%s.json" % pid
-        bak = open(evp).read() if os.path.exists(evp) else None
         env["VERIF_REPO"] = wt
         env["VERIF_NO_CONFIRM"] = "1"
         rc, out = sh("./vcheck %s --tier quick" % pid, "/verif", timeout=3600)
@@ -66,7 +65,6 @@ if ok and "--no-check" not in sys.argv:
         res["check_violation_lines"] = [l[:400] for l in out.splitlines() if l.startswith("VIOLATION")][:6]
         res["check_summary"] = [l[:300] for l in out.splitlines() if l.startswith("vcheck") or l.startswith("VERIF-INFRA")][-2:]
         res["caught"] = rc == 1 and any(("property=%s" % pid) in l for l in res["check_violation_lines"])
-        if bak is not None: open(evp, "w").write(bak)
     finally:
         sh("git checkout -- . && git clean -fdq", wt)
 dst = "/verif/seeded/%s-%s" % (pid, tag)
